@@ -35,6 +35,27 @@ def token_enum_names() -> tuple[str, ...]:
 
 
 @functools.lru_cache(None)
+def token_enum_canonical() -> dict:
+    """member name -> canonical name (an enum member assigned from another member, `WS = WHITESPACE`, is an alias: looking it up
+    by name gives the other member, whose `.name` is the canonical spelling)."""
+    mod = parse_py(TOKENIZE)
+    out: dict = {}
+    for n in mod.body:
+        if isinstance(n, ast.ClassDef) and n.name == "Token":
+            for s in n.body:
+                if isinstance(s, ast.Assign) and len(s.targets) == 1 and isinstance(s.targets[0], ast.Name):
+                    nm = s.targets[0].id
+                    v = s.value
+                    if isinstance(v, ast.Name) and v.id in out:
+                        out[nm] = out[v.id]
+                    elif isinstance(v, ast.Attribute) and isinstance(v.value, ast.Name) and v.value.id == "Token" and v.attr in out:
+                        out[nm] = out[v.attr]
+                    else:
+                        out[nm] = nm
+    return out
+
+
+@functools.lru_cache(None)
 def x_token_names() -> frozenset[str]:
     return frozenset(token_enum_names()) | {"SOFT_KEYWORD", "KEYWORD", "ANY_TOKEN"}
 
